@@ -529,6 +529,17 @@ func c05Journal(c *core.Ctx) {
 		}
 		seqs = append(seqs, s)
 	}
+	if c.Index%7 == 3 {
+		// a long sequence (a counter, a periodic branch or a capped buffer in the journal is reached): lengths around the
+		// usual round numbers
+		n := core.Pick(r, []int{255, 256, 257, 999, 1000, 1001, 1024, 2000, 2049})
+		var s []*gtfs.Realtime
+		for i := 0; i < n; i++ {
+			s = append(s, feeds[(i*7+i/5)%len(feeds)])
+		}
+		seqs = append(seqs, s)
+		c.Feature("journal-long-sequence")
+	}
 	windows := [][2]time.Time{{time.Unix(0, 0), time.Unix(1<<40, 0)}, {time.Unix(c16FeedTs-86400, 0), time.Unix(c16FeedTs+86400, 0)}, {time.Unix(c16FeedTs, 0), time.Unix(0, 0)}, {time.Time{}, time.Unix(1<<50, 0)}}
 	trips, stops := 0, 0
 	for _, s := range seqs {
